@@ -493,6 +493,89 @@ impl Part for LongPart {
 }
 
 // ---------------------------------------------------------------------------------------
+// Timers in any order, late and duplicated: whatever fires, an indirect request is only ever made
+// for the member pinged last (the round in progress), never sent to it, only to active members
+// ---------------------------------------------------------------------------------------
+
+pub struct ReqMon {
+    codec: CodecKind,
+    requests: u64,
+    stale_indirect_timers: u64,
+    nontrivial: Vec<u64>,
+}
+
+impl Monitor for ReqMon {
+    fn on_call(&mut self, rec: &CallRec, origin: &Origin, runner: &Runner) -> Result<(), Fail> {
+        let sent = sent_dgrams(rec, self.codec, "C12")?;
+        let reqs: Vec<_> = sent.iter().filter_map(|s| if let Message::PingReq { target, probe_number } = &s.dgram.header.message { Some((*s.to, *target, *probe_number)) } else { None }).collect();
+        let timer_target = match &rec.call {
+            Call::Timer(Timer::SendIndirectProbe { probed_id, .. }) => Some(*probed_id),
+            _ => None,
+        };
+        if let (Some(t), Some((cur, _))) = (timer_target, runner.last_ping) {
+            if t != cur || matches!(origin, Origin::Old(_)) {
+                self.stale_indirect_timers += 1;
+                self.nontrivial.push(hash_of(&("stale-indirect-timer", reqs.len().min(3), matches!(origin, Origin::Old(_)))));
+            }
+        }
+        if reqs.is_empty() {
+            return Ok(());
+        }
+        self.requests += reqs.len() as u64;
+        ensure!(timer_target.is_some(), "C12:pingreq-outside-indirect-stage", "PingReq sent while handling {} (only the indirect-probe timer of the round in progress asks for help)", rec.call.kind());
+        let Some((cur, no)) = runner.last_ping else {
+            return Err(Fail::new("C12:pingreq-without-round", "PingReq sent although the instance never pinged anybody".to_string()));
+        };
+        let limit = runner.inst.cfg.num_indirect as usize;
+        ensure!(reqs.len() <= limit, "C12:too-many-pingreq", "{} PingReq sent, num_indirect_probes is {}", reqs.len(), limit);
+        let mut seen: Vec<Id> = Vec::new();
+        for (to, target, n) in &reqs {
+            ensure!(
+                *target == cur && *n == no,
+                "C12:pingreq-for-another-round",
+                "PingReq(target {target}, number {n}) sent to {to} while the round in progress pinged {cur} with number {no} (timer delivered: {:?}, {})",
+                rec.call,
+                if matches!(origin, Origin::Old(_)) { "a duplicate" } else { "first delivery" }
+            );
+            ensure!(to != target && to.addr != target.addr, "C12:pingreq-to-target", "PingReq about {target} sent to the target itself ({to})");
+            ensure!(rec.before.is_active(to), "C12:pingreq-to-inactive", "PingReq sent to {to} which is not an active member");
+            ensure!(!seen.contains(to), "C12:pingreq-duplicate-helper", "two PingReq of one round sent to {to}");
+            seen.push(*to);
+        }
+        Ok(())
+    }
+    fn finish(&mut self, out: &mut CaseOut) {
+        out.sub_evaluations += self.requests;
+        out.class_n("pingreq_checked", self.requests);
+        out.class_n("indirect_timers_delivered_late_or_twice", self.stale_indirect_timers);
+        out.nontrivial.append(&mut self.nontrivial);
+    }
+}
+
+fn part_any_order() -> HistPart<ReqMon, impl Fn(&Setup) -> ReqMon + Sync> {
+    let mut p = Profile::default();
+    p.in_order_only = false;
+    p.any_order = true;
+    p.old_timers = true;
+    p.n_addr = 6;
+    p.max_len = 140;
+    p.timers_weight = 55;
+    p.set_config = false;
+    let mut sp = SetupProfile::default();
+    sp.periodic = false;
+    sp.handler = false;
+    sp.codecs = vec![CodecKind::Fix, CodecKind::Var];
+    HistPart {
+        name: "indirect-requests-with-timers-in-any-order",
+        sp,
+        p,
+        cases_quick: 25_000,
+        cases_thorough: 1_500_000,
+        mk: |s: &Setup| ReqMon { codec: s.codec, requests: 0, stale_indirect_timers: 0, nontrivial: Vec::new() },
+    }
+}
+
+// ---------------------------------------------------------------------------------------
 // A real chain: origin, helper, target (and a bystander) exchanging the relay end to end
 // ---------------------------------------------------------------------------------------
 
@@ -652,12 +735,13 @@ pub fn run(ctx: &Ctx, report: &mut Report) -> EvidenceMeta {
     ctx.run_enum("relay-chain", cs.len() as u64, |i| cs[i as usize].clone(), exec_chain, report, false);
     ctx.run_part(&RoundsPart, report);
     ctx.run_part(&LongPart, report);
+    ctx.run_part(&part_any_order(), report);
     EvidenceMeta {
         level: "exploration",
-        rule: "(1) proptest histories of one instance with 1..6 members in which the probe timers are delivered in deadline order and the inputs around them are generated: Ack / ForwardedAck from the target, an asked helper, an unasked member, an unknown identity or a newer generation of the target, with probe number current / previous / next / random, duplicates, arriving before the indirect stage, between the two timers or after the round; membership changes about the target (Suspect, higher incarnation, Down, rename) and events that abort the round (idle, Down about self, change_identity); plus Ping / PingReq / IndirectPing / IndirectAck / ForwardedAck datagrams with generated fields (incl. naming the instance itself) in every connection state. A round ledger built only from observations (Ping destination and number, PingReq destinations, accepted datagrams by the structural classifier) decides whether genuine evidence existed; at the next round: evidence => no suspicion, no evidence and target still active at the same incarnation => Suspect + exactly one timeout; PingReq only without a direct ack, to <= num_indirect distinct active members other than the target with the right fields; every reply/relay preserves (origin, target, number); the instance's private probe state (hook) must agree with the ledger. (2) 260..330 consecutive acknowledged rounds (direct Ack or ForwardedAck from the asked helper) so that the 8-bit probe number wraps around; (3) a real 4-instance chain (origin, helpers, target) run end to end for 4 codecs x probe numbers x each hop lost. Non-trivial: a round with a near-miss input (right sender wrong number, right number wrong sender, duplicate, unasked helper) or an abort; chain runs always."
+        rule: "(1) proptest histories of one instance with 1..6 members in which the probe timers are delivered in deadline order and the inputs around them are generated: Ack / ForwardedAck from the target, an asked helper, an unasked member, an unknown identity or a newer generation of the target, with probe number current / previous / next / random, duplicates, arriving before the indirect stage, between the two timers or after the round; membership changes about the target (Suspect, higher incarnation, Down, rename) and events that abort the round (idle, Down about self, change_identity); plus Ping / PingReq / IndirectPing / IndirectAck / ForwardedAck datagrams with generated fields (incl. naming the instance itself) in every connection state. A round ledger built only from observations (Ping destination and number, PingReq destinations, accepted datagrams by the structural classifier) decides whether genuine evidence existed; at the next round: evidence => no suspicion, no evidence and target still active at the same incarnation => Suspect + exactly one timeout; PingReq only without a direct ack, to <= num_indirect distinct active members other than the target with the right fields; every reply/relay preserves (origin, target, number); the instance's private probe state (hook) must agree with the ledger. (2) 260..330 consecutive acknowledged rounds (direct Ack or ForwardedAck from the asked helper) so that the 8-bit probe number wraps around; (2b) random histories in which issued timers fire in any order, late and more than once: every PingReq is sent by the indirect-probe timer, names the member pinged last with that Ping's number, goes to <= num_indirect distinct active members and never to the target; (3) a real 4-instance chain (origin, helpers, target) run end to end for 4 codecs x probe numbers x each hop lost. Non-trivial: a round with a near-miss input (right sender wrong number, right number wrong sender, duplicate, unasked helper) or an abort; chain runs always."
             .into(),
         assumptions: vec![
-            "probe timers are delivered in deadline order (out-of-order delivery is C13's subject)".into(),
+            "parts (1) and (2) deliver probe timers in deadline order; part (2b) delivers them in any order and judges only the indirect requests".into(),
             "a datagram counts as received when the structural classifier accepts it and its sender is active right after its header is applied".into(),
         ],
     }
@@ -667,6 +751,7 @@ pub fn replay(part_name: &str, case: &Value) -> Option<Result<(), Fail>> {
     match part_name {
         "probe-rounds" => Some(replay_with(&RoundsPart, case)),
         "acked-rounds-across-probe-number-wrap" => Some(replay_with(&LongPart, case)),
+        "indirect-requests-with-timers-in-any-order" => Some(replay_with(&part_any_order(), case)),
         "relay-chain" => Some((|| {
             let c: Chain = serde_json::from_value(case.clone()).map_err(|e| Fail::new("replay:bad-file", e.to_string()))?;
             exec_chain(&c, &mut CaseOut::default())
